@@ -392,12 +392,40 @@ func resolveSvc(r *core.Run, rule string) *svcAnchors {
 		}
 		return core.Field{Struct: nt.Obj().Name(), Name: st.Field(0).Name()}, true
 	}
-	a.State = uniq(func(v *types.Var) bool {
+	isStateCand := func(v *types.Var) bool {
 		if isWord(v.Type()) {
 			return true
 		}
 		_, ok := wrapped(v.Type())
 		return ok
+	}
+	// several word members (the state plus a flag added next to it): the state word is the one the
+	// service's code reads and writes far more often than any other (at least twice as often)
+	stateName := ""
+	{
+		type cnt struct {
+			name string
+			n    int
+		}
+		var cs []cnt
+		for i := 0; i < st.NumFields(); i++ {
+			if isStateCand(st.Field(i)) {
+				f := core.Field{Struct: a.S, Name: st.Field(i).Name()}
+				cs = append(cs, cnt{f.Name, len(core.FieldAccesses(p.FuncsOfPkg(""), func(g core.Field) bool { return g == f }))})
+			}
+		}
+		if len(cs) > 1 {
+			sort.Slice(cs, func(i, j int) bool { return cs[i].n > cs[j].n })
+			if cs[0].n >= 2*cs[1].n && cs[0].n >= 4 {
+				stateName = cs[0].name
+			}
+		}
+	}
+	a.State = uniq(func(v *types.Var) bool {
+		if stateName != "" {
+			return v.Name() == stateName
+		}
+		return isStateCand(v)
 	}, "S.state")
 	for i := 0; i < st.NumFields(); i++ {
 		if st.Field(i).Name() == a.State.Name {
